@@ -43,6 +43,10 @@ gen_transport_kept = TkNothing (C16_history_transport_keeps_nothing; the leaky s
 call replayed in the model as a run of its own.  An input found in the long-lived check process is re-run alone in a fresh
 interpreter; when it does not show there it is reported as depending on the runs before it.
 
+Sizes (round 5): the end-to-end queries and reader sessions also run on BIG generated files (BIG_PROFILES: the chunks a query selects
+form ONE byte range of more than 1 / 2 / 4 / 8 MiB with an awkward remainder, or of exactly 2^k bytes): whatever the fetching code
+does with a range above a size limit (splitting it over workers, block-wise reads) must still assemble the local read.
+
 Sessions: successive calls of a strategy on one source, and successive queries on ONE CopcReader over the fake http source
 (levels / boxes growing and shrinking, so that byte ranges start at the same offset with different lengths; repeats; unrelated
 ones), persistent and transient faults: each must equal the local answer for ITS ranges.  Model: reader_session gen_fetch_site
@@ -1729,7 +1733,12 @@ RULE = ("inputs: a fake file of random non-zero bytes, 1..6 disjoint byte ranges
         "ranges or raise the error of one of ITS failed requests, no call may block, no thread may be left; each call is also replayed in the "
         "model as a run of its own. end to end: CopcReader.query over the fake http source vs the local bytes on generated "
         "COPC files (chunks laid out deepest level first / in level order / randomly, with gaps; nodes without points: none / root / "
-        "inner / some / all), queries: whole file, levels, boxes, and for empty nodes the query selecting exactly that node; workers "
+        "inner / some / all; BIG files first: chunks of 10^4 .. 10^5 records of 31 bytes, so that the chunks a level / the whole file "
+        "selects are ONE byte range over 1 MiB, over 2 MiB, over 4 MiB (thorough: over 8 MiB) whose size S leaves a remainder when "
+        "divided by ceil(S / 2 MiB) (and mostly by ceil(S / 1 MiB), ceil(S / 4 MiB)), or chunks of exactly 512 KiB - ranges of exactly "
+        "2 MiB / 4 MiB -, or one chunk over 2 MiB, or level 1 being one range of EXACTLY 2^k - 1, 2^k, 2^k + 1, 2^k + 2 bytes for 1, 2, "
+        "4 MiB (2 MiB + 1 in every run); box queries on them make one big and several smaller ranges; built again from "
+        "their parameters at replay (file_gen)), queries: whole file, levels, boxes, and for empty nodes the query selecting exactly that node; workers "
         "1, 2, 3, 8; both strategies; one failing data request of each kind; deadlock / hang detection by the controller; sessions of 2..4 queries on ONE reader (levels growing / shrinking, deepest level "
         "first then more levels, boxes growing / shrinking, the same query twice, unrelated queries; persistent / transient fault on a "
         "data request), every query compared with a fresh local reader, and - model reader_session gen_fetch_site - the compressed "
@@ -2117,15 +2126,90 @@ LAYOUTS = ["deepest level first", "level order", "random", "deepest level first,
 EMPTIES = ["none", "root", "some", "inner", "all", "some"]
 
 
-def build_copc(rng, layout="random", empties="none"):
+# BIG files: SIZE thresholds of the fetching code (a limit on the bytes of one range request, block-wise reads, a split of a
+# big range over several workers ...) only show when a run of chunks that are contiguous in the file - ONE byte range of the
+# query - is big.  Points per node of a level (lo, hi); `extra`: extra bytes per record (31-byte records: chunk and run sizes of
+# both parities).  The counts are drawn until the byte size S of every run a level selection makes (a whole level, levels 1-2, the
+# whole file) leaves a remainder when divided by ceil(S / T), first of all for T = 2 MiB, then for T = 1 and 4 MiB (an equal
+# split of S into the fewest parts of at most T bytes is not exact); lo = hi: chunks of exactly that many points (16912 records
+# of 31 bytes + 16 = 512 KiB: runs of exactly 2^k bytes, the limit itself)
+MIB = 1 << 20
+BIG_PROFILES = {
+    "runs over 2 MiB and over 4 MiB": {"extra": 1, "counts": {0: (2200, 2600), 1: (9200, 10400), 2: (14500, 16000)}},
+    "chunks of exactly 512 KiB (runs of exactly 2 MiB / 4 MiB)": {"extra": 1, "counts": {0: (1, 5), 1: (16912, 16912), 2: (700, 1500)}},
+    "runs over 1 MiB and over 2 MiB": {"extra": 1, "counts": {0: (2120, 2400), 1: (4400, 5200), 2: (7000, 8000)}},
+    "one chunk over 2 MiB": {"extra": 1, "counts": {0: (68000, 72000), 1: (20, 60), 2: (2, 9)}},
+    "runs over 4 MiB and over 8 MiB": {"extra": 1, "counts": {0: (3000, 3400), 1: (17500, 19000), 2: (29000, 33000)}},
+}
+BIG_QUICK = ["runs over 2 MiB and over 4 MiB", "chunks of exactly 512 KiB (runs of exactly 2 MiB / 4 MiB)", "runs over 1 MiB and over 2 MiB"]
+
+
+# ... and runs of EXACTLY a given number of bytes: the limits themselves and their neighbours (2^k - 1, 2^k, 2^k + 1, 2^k + 2 for
+# 1, 2, 4 MiB): the chunks of level 1 (k of the 8 children hold points, the others are empty nodes) are one run of T bytes:
+# 16 k + item size * (number of points) = T is solved for k in 1..8 and an item size of 30..38 bytes (0..8 extra bytes)
+BIG_TARGET = "level 1 is one run of exactly %d bytes"
+BIG_TARGETS = [L + d for L in (2 * MIB, MIB, 4 * MIB) for d in (1, -1, 0, 2)]
+
+
+def big_profile(big):
+    if big in BIG_PROFILES:
+        return BIG_PROFILES[big]
+    T = int(big.split("exactly ")[1].split(" ")[0])
+    for isz in (31, 30, 32, 33, 34, 35, 36, 37, 38):
+        for k in (8, 7, 6, 5, 4, 3, 2, 1):
+            if (T - 16 * k) % isz == 0 and (T - 16 * k) // isz >= k:
+                return {"extra": isz - 30, "counts": {0: (10, 60), 1: (0, 0), 2: (10, 60)}, "target": (T, k, (T - 16 * k) // isz)}
+    raise ValueError(f"no layout of level 1 has exactly {T} bytes")
+
+
+def big_counts(rng, keys, empty, prof, isz):
+    """points per node for a BIG profile (see above)"""
+    if "target" in prof:
+        T, k, total = prof["target"]
+        children = [i for i, key in enumerate(keys) if key[0] == 1]
+        full = sorted(rng.sample(children, k))
+        cuts = sorted(rng.sample(range(1, total), k - 1)) if k > 1 else []
+        parts = [b - a for a, b in zip([0] + cuts, cuts + [total])]
+        cs = [rng.randint(*prof["counts"][key[0]]) for key in keys]
+        for i in children:
+            cs[i] = parts[full.index(i)] if i in full else 0
+        assert sum(16 + isz * cs[i] for i in full) == T
+        return cs
+    def sizes(cs):
+        by = {}
+        for k, c in zip(keys, cs):
+            if c:
+                by[k[0]] = by.get(k[0], 0) + 16 + isz * c       # a chunk of fake_lazrs: 16 bytes + the records
+        lv = sorted(by)
+        return [by[a] for a in lv] + [sum(by[a] for a in lv if a >= 1), sum(by.values())]
+
+    def awkward(S, T):
+        return S <= T or S % -(-S // T) != 0
+    best = None
+    for _ in range(1500):
+        cs = [0 if k in empty else rng.randint(*prof["counts"][k[0]]) for k in keys]
+        ss = sizes(cs)
+        # (the runs cannot all be awkward for every T: the size of levels 1-2 is the sum of two of them; T = 2 MiB comes first)
+        score = sum((10 if T == 2 * MIB else 1) for S in ss for T in (MIB, 2 * MIB, 4 * MIB) if S > T and awkward(S, T))
+        if best is None or score > best[0]:
+            best = (score, cs)
+        if all(awkward(S, T) for S in ss for T in (MIB, 2 * MIB, 4 * MIB)):
+            break
+    return best[1]
+
+
+def build_copc(rng, layout="random", empties="none", big=None):
     """a small COPC file: root + 8 children + grandchildren below two of them, one hierarchy page (EVLR).  layout: the order
     the chunks are laid out in the file (any order is legal); empties: which nodes have no points (hierarchy entry with
-    point_count 0, offset 0, byte_size 0)"""
+    point_count 0, offset 0, byte_size 0); big: the name of a BIG profile (chunks of 10^4 .. 10^5 points: runs of several MiB)"""
     from harness import fake_lazrs
     fake_lazrs.install()
     import laspy
     import numpy as np
     h = laspy.LasHeader(version="1.4", point_format=6)
+    prof = big_profile(big) if big else None
+    for j in range(prof["extra"] if prof else 0):
+        h.add_extra_dim(laspy.ExtraBytesParams(f"e{j}", "uint8"))
     h.scales = np.array([0.01, 0.01, 0.01])
     h.offsets = np.array([0.0, 0.0, 0.0])
     isz = h.point_format.size
@@ -2149,19 +2233,35 @@ def build_copc(rng, layout="random", empties="none"):
         if len(empty) == len(keys):
             empty.discard(rng.choice(keys[1:]))
     nodes = []
+    counts = big_counts(rng, keys, empty, prof, isz) if prof else None
     for idx, (lv, x, y, z) in enumerate(keys):
         side = 10000 >> lv                                           # in integer coordinates (root cube = [0, 10000)^3)
-        n = 0 if (lv, x, y, z) in empty else rng.randrange(1, 6)
-        rec = laspy.ScaleAwarePointRecord.zeros(n, header=h)
-        rec["X"] = [x * side + rng.randrange(side) for _ in range(n)]
-        rec["Y"] = [y * side + rng.randrange(side) for _ in range(n)]
-        rec["Z"] = [z * side + rng.randrange(side) for _ in range(n)]
-        rec["intensity"] = [idx * 100 + j for j in range(n)]
+        if prof:
+            n = counts[idx]
+            g = np.random.default_rng(rng.getrandbits(32))
+            rec = laspy.ScaleAwarePointRecord.zeros(n, header=h)
+            for dim, c in (("X", x), ("Y", y), ("Z", z)):
+                rec[dim] = c * side + g.integers(0, side, n)
+            rec["intensity"] = np.arange(n) % 65521
+            rec["gps_time"] = idx * 1e6 + np.arange(n)              # every record of the file is different
+            rec["user_data"] = g.integers(1, 256, n)
+            for j in range(prof["extra"]):
+                rec[f"e{j}"] = g.integers(1, 256, n)
+        else:
+            n = 0 if (lv, x, y, z) in empty else rng.randrange(1, 6)
+            rec = laspy.ScaleAwarePointRecord.zeros(n, header=h)
+            rec["X"] = [x * side + rng.randrange(side) for _ in range(n)]
+            rec["Y"] = [y * side + rng.randrange(side) for _ in range(n)]
+            rec["Z"] = [z * side + rng.randrange(side) for _ in range(n)]
+            rec["intensity"] = [idx * 100 + j for j in range(n)]
         nodes.append({"key": (lv, x, y, z), "n": n, "offset": 0,
                       "chunk": fake_lazrs.encode_chunk(bytes(rec.memoryview()), isz) if n else b""})
-    lazvlr = fake_lazrs.LazVlr.new_for_compression(6, 0, use_variable_size_chunks=True)
+    lazvlr = fake_lazrs.LazVlr.new_for_compression(6, isz - 30, use_variable_size_chunks=True)
     h.vlrs.append(laspy.VLR("copc", 1, "COPC info", b"\0" * 160))
     h.vlrs.append(laspy.VLR("laszip encoded", 22204, "fake laszip", bytes(lazvlr.record_data())))
+    for v in [v for v in h.vlrs if type(v).__name__ == "ExtraBytesVlr"]:      # the COPC info record must stay the first one
+        h.vlrs.remove(v)
+        h.vlrs.append(v)
     h.are_points_compressed = True
     tmp = io.BytesIO()
     h.write_to(tmp)
@@ -2199,9 +2299,11 @@ def build_copc(rng, layout="random", empties="none"):
     return out.getvalue() + bytes(body) + evlr, nodes
 
 
-def e2e_queries(rng, nodes):
+def e2e_queries(rng, nodes, big=False):
     """the whole file, level selections, boxes; and for (up to 3 of) the empty nodes the query that selects exactly that node"""
     qs = [{"level": None, "bounds": None}, {"level": 1, "bounds": None}, {"level": [1, 3], "bounds": None}, {"level": 0, "bounds": None}]
+    if big:
+        qs.append({"level": [0, 2], "bounds": None})
     for _ in range(2):
         lo = [rng.choice([0.0, 50.0]) for _ in range(3)]
         qs.append({"level": rng.choice([None, [0, 2], 2]), "bounds": [lo, [lo[0] + 50.0, lo[1] + 50.0, rng.choice([lo[2] + 50.0, 100.0])]]})
@@ -2237,16 +2339,36 @@ def e2e_local(raw, q):
 def e2e_run(raw, q, strategy, workers, faults, schedule=None, policy=None):
     """faults: {start offset of a request: (status, body kind)}"""
     e2e_backend()
-    local = e2e_local(raw, q)
-    world = World(raw, {int(k): tuple(v) for k, v in dict(faults).items()}, by_start=True)
+    keep = DropEmptyEntries.LOG
+    try:
+        DropEmptyEntries.LOG = got_local = []
+        local = e2e_local(raw, q)
+        world = World(raw, {int(k): tuple(v) for k, v in dict(faults).items()}, by_start=True)
 
-    def fn(p):
-        src = p.stream_cls("http://fake/e2e.copc.laz")
-        rd = p.copc.CopcReader(src, http_num_threads=workers, _http_strategy=strategy)
-        return e2e_query(p.copc, rd, q)
-    mode = "queue" if strategy == "queue" else "exec"
-    res = controlled_call(mode, world, fn, schedule, policy, seek_yields=(mode == "exec"))
+        def fn(p):
+            src = p.stream_cls("http://fake/e2e.copc.laz")
+            rd = p.copc.CopcReader(src, http_num_threads=workers, _http_strategy=strategy)
+            return e2e_query(p.copc, rd, q)
+        mode = "queue" if strategy == "queue" else "exec"
+        DropEmptyEntries.LOG = got_http = []
+        res = controlled_call(mode, world, fn, schedule, policy, seek_yields=(mode == "exec"))
+    finally:
+        DropEmptyEntries.LOG = keep
+    res["backend"] = (got_local[-1] if got_local else None, got_http[-1] if got_http else None)
     return local, res, res["failed"]
+
+
+def backend_note(res):
+    """how the compressed bytes the http query handed to the LAZ backend differ from those of the local query"""
+    a, b = res.get("backend") or (None, None)
+    if a is None or b is None or a == b:
+        return ""
+    k = next((i for i in range(min(len(a), len(b))) if a[i] != b[i]), min(len(a), len(b)))
+    zeros = len(b) - len(b.rstrip(b"\0"))
+    reqs = [list(r) for r in res.get("requests", []) if r[1] > 4096][:12]
+    return (f"; the compressed bytes handed to the LAZ backend ({len(b)} bytes) differ from those of the local query ({len(a)} bytes) "
+            f"from byte {k} on" + (f", the last {zeros} bytes are zero (never written)" if zeros else "")
+            + f"; range requests over 4 KiB [start, bytes]: {reqs}, {sum(r[1] for r in reqs)} bytes in all")
 
 
 def e2e_oracle(local, res, failed):
@@ -2264,16 +2386,47 @@ def e2e_oracle(local, res, failed):
                 return "e2e: query over http differs from the local query (which raises)", f"{short(out)} vs local {local}"
             return None
         if out[0] != "returned":
-            return "e2e: query over http raises although no request failed", str(short(out)) + f"; the local query returns {len(local[1])} bytes of records"
+            return ("e2e: query over http raises although no request failed",
+                    str(short(out)) + f"; the local query returns {len(local[1])} bytes of records" + backend_note(res))
         if out[1] != local[1]:
             a, b = out[1], local[1]
-            return "e2e: query over http returns other points than the local file", f"{len(a)} bytes vs {len(b)} bytes, first difference at {next((k for k in range(min(len(a), len(b))) if a[k] != b[k]), min(len(a), len(b)))}"
+            return ("e2e: query over http returns other points than the local file",
+                    f"{len(a)} bytes vs {len(b)} bytes, first difference at {next((k for k in range(min(len(a), len(b))) if a[k] != b[k]), min(len(a), len(b)))}"
+                    + backend_note(res))
     else:
         if out[0] == "returned":
             return "e2e: failed request swallowed by the query", f"failed {failed}, returned {len(out[1])} bytes of records"
         if out[0] != "raised" or out[1] not in failed:
             return "e2e: failed request surfaced as something else", str(short(out))
     return None
+
+
+BIG_LAYOUTS = ["level order", "deepest level first", "level order", "random"]
+
+
+def copc_from_gen(gen):
+    """the file of a `file_gen` input: built again from its parameters (a BIG file is not written out in hex)"""
+    return build_copc(random.Random(gen["seed"]), gen["layout"], gen["empties"], big=gen.get("big"))
+
+
+def file_input(raw, gen=None):
+    if gen is None:
+        return {"file_hex": raw.hex()}
+    import hashlib
+    return {"file_gen": dict(gen, sha1=hashlib.sha1(raw).hexdigest(), bytes=len(raw)),
+            "file_gen_legend": "harness.props.c16.copc_from_gen(file_gen) builds the file (harness/fake_lazrs as the LAZ codec): "
+                               "root + 8 children + 5 grandchildren, chunks laid out as `layout`, points per node drawn from "
+                               "BIG_PROFILES[big]"}
+
+
+def file_of_input(inp):
+    if "file_gen" in inp:
+        import hashlib
+        raw, _nodes = copc_from_gen(inp["file_gen"])
+        if inp["file_gen"].get("sha1") not in (None, hashlib.sha1(raw).hexdigest()):
+            raise RuntimeError("the file built from file_gen is not the one the input was found with (generator changed)")
+        return raw
+    return bytes.fromhex(inp["file_hex"])
 
 
 E2E_POLICIES = ["main preempted between its puts / thread starts until no worker can move",
@@ -2294,11 +2447,22 @@ def e2e(ctx):
     runs = 0
     t0 = time.time()
     nfiles = ctx.n(15, 60)
-    for fi in range(nfiles):
-        layout, empties = LAYOUTS[fi % len(LAYOUTS)], EMPTIES[fi % len(EMPTIES)]
-        raw, nodes = build_copc(rng, layout, empties)
+    # BIG files (runs of contiguous chunks of several MiB: one byte range of the query over 1 / 2 / 4 MiB whose size is not a
+    # multiple of the number of parts an equal split would cut it into, or exactly 2^k bytes) come first, then the small ones
+    bigs = BIG_QUICK if not ctx.thorough() else list(BIG_PROFILES) * 2
+    plan = [(BIG_LAYOUTS[k % len(BIG_LAYOUTS)], ("none", "some")[k % 5 == 3], name) for k, name in enumerate(bigs)]
+    targets = [BIG_TARGETS[0]] + rng.sample(BIG_TARGETS[1:], 2) if not ctx.thorough() else BIG_TARGETS
+    plan += [(("level order", "deepest level first")[k % 2], "none", BIG_TARGET % T) for k, T in enumerate(targets)]
+    plan += [(LAYOUTS[fi % len(LAYOUTS)], EMPTIES[fi % len(EMPTIES)], None) for fi in range(nfiles)]
+    for fi, (layout, empties, big) in enumerate(plan):
+        gen = None
+        if big:
+            gen = {"seed": rng.getrandbits(32), "layout": layout, "empties": empties, "big": big}
+            raw, nodes = copc_from_gen(gen)
+        else:
+            raw, nodes = build_copc(rng, layout, empties)
         offs = {nd["offset"] for nd in nodes if nd["n"]}
-        for qi, q in enumerate(e2e_queries(rng, nodes)):
+        for qi, q in enumerate(e2e_queries(rng, nodes, big=bool(big))):
             for si, strategy in enumerate(("queue", "executor")):
                 starts = []
                 for with_failure in (False, True):
@@ -2306,6 +2470,8 @@ def e2e(ctx):
                         continue
                     faults = {rng.choice(starts): CYCLE.next()} if with_failure else {}
                     workers = rng.choice([1, 1, 2, 3, 8])
+                    if big and not with_failure:
+                        workers = (1, 3, 2, 8)[(qi + si) % 4]       # every worker count over the big files
                     pname = E2E_POLICIES[(runs + fi) % len(E2E_POLICIES)]
                     if pname is None:
                         prio = LABELS[:]
@@ -2325,12 +2491,17 @@ def e2e(ctx):
                     ctx.count(f"e2e:ranges:{len(starts)}")
                     ctx.count("e2e:layout:" + layout)
                     ctx.count("e2e:empty nodes:" + empties)
+                    if big:
+                        ctx.count("e2e:big file:" + (big if big in BIG_PROFILES else "level 1 is one run of exactly 2^k - 1 .. 2^k + 2 bytes"))
+                    top = max([r[1] for r in res["requests"] if r[0] in offs] or [0])
+                    ctx.count("e2e:biggest range request of the query:" + ("<= 64 KiB" if top <= 65536 else "<= 1 MiB" if top <= MIB else
+                                                                           "<= 2 MiB" if top <= 2 * MIB else "<= 4 MiB" if top <= 4 * MIB else "> 4 MiB"))
                     if "selects" in q:
                         ctx.count("e2e:query selecting only an empty node")
                     bad = e2e_oracle(local, res, failed)
                     if bad is not None and not any(f["kind"] == bad[0] for f in found):
                         found.append({"kind": bad[0], "observed": bad[1],
-                                      "input": {"strategy": "e2e", "http_strategy": strategy, "file_hex": raw.hex(), "query": q,
+                                      "input": {"strategy": "e2e", "http_strategy": strategy, **file_input(raw, gen), "query": q,
                                                 "layout": layout, "empty_nodes": empties, "workers": workers,
                                                 "faults": {str(k): list(v) for k, v in faults.items()},
                                                 "faults_legend": "{start offset of the request: [status (-1: no answer), error body kind]}",
@@ -2530,9 +2701,17 @@ def e2e_sessions(ctx):
     found = []
     runs = 0
     t0 = time.time()
-    for fi in range(ctx.n(14, 50)):
-        layout, empties = LAYOUTS_S[fi % len(LAYOUTS_S)], EMPTIES_S[fi % len(EMPTIES_S)]
-        raw, nodes = build_copc(rng, layout, empties)
+    bigs = BIG_QUICK[:1] if not ctx.thorough() else list(BIG_PROFILES)
+    plan = [(BIG_LAYOUTS[k % len(BIG_LAYOUTS)], "none", name) for k, name in enumerate(bigs)]
+    plan += [(LAYOUTS_S[fi % len(LAYOUTS_S)], EMPTIES_S[fi % len(EMPTIES_S)], None) for fi in range(ctx.n(14, 50))]
+    for fi, (layout, empties, big) in enumerate(plan):
+        gen = None
+        if big:     # successive queries whose ONE big byte range starts at the same chunk with other lengths (over / under a limit)
+            gen = {"seed": rng.getrandbits(32), "layout": layout, "empties": empties, "big": big}
+            raw, nodes = copc_from_gen(gen)
+            ctx.count("e2e session:big file:" + big)
+        else:
+            raw, nodes = build_copc(rng, layout, empties)
         offs = {nd["offset"] for nd in nodes if nd["n"]}
         for si, (name, queries) in enumerate(e2e_session_queries(rng, nodes)):
             for strategy in (("queue", "executor") if ctx.thorough() else (("queue", "executor")[(fi + si) % 2],)):
@@ -2563,7 +2742,7 @@ def e2e_sessions(ctx):
                     bad = e2e_session_oracle(queries, locals_, res)
                     if bad is not None and not any(f["kind"] == bad[0] for f in found):
                         found.append({"kind": bad[0], "observed": bad[1],
-                                      "input": {"strategy": "e2e", "http_strategy": strategy, "file_hex": raw.hex(), "queries": queries,
+                                      "input": {"strategy": "e2e", "http_strategy": strategy, **file_input(raw, gen), "queries": queries,
                                                 "session": name, "layout": layout, "empty_nodes": empties, "workers": workers,
                                                 "faults": {str(k): list(v) for k, v in faults.items()}, "transient": fmode == 2,
                                                 "faults_legend": "{start offset of the request: [status (-1: no answer), error body kind]}; "
@@ -2583,7 +2762,7 @@ EMPTIES_S = ["none", "none", "some", "inner", "none", "root"]
 
 
 def e2e_replay_run(inp):
-    raw = bytes.fromhex(inp["file_hex"])
+    raw = file_of_input(inp)
     if "queries" in inp:
         locals_, res = e2e_session_run(raw, inp["queries"], inp["http_strategy"], inp["workers"], inp.get("faults") or {},
                                        once=bool(inp.get("transient")), schedule=list(inp["schedule"]))
